@@ -26,6 +26,21 @@ class NeedSplit(Exception):
         self.cond = cond
 
 
+def _top_conds(t, acc):
+    """conditions of the γ nodes reachable from the root through arithmetic nodes and γ branches only"""
+    op = t[0]
+    if op == 'gamma':
+        if t[1] not in acc:
+            acc.append(t[1])
+        _top_conds(t[2], acc)
+        _top_conds(t[3], acc)
+    elif op in ('add', 'sub', 'mul', 'div'):
+        _top_conds(t[1], acc)
+        _top_conds(t[2], acc)
+    elif op == 'neg':
+        _top_conds(t[1], acc)
+
+
 def conds_of(t, acc):
     for x in walk(t):
         if x[0] == 'gamma':
@@ -214,6 +229,45 @@ class Prover:
     # ---- core
     def _prove(self, kind, goal, facts):
         facts = list(facts)
+        # L0: every max/min/abs/γ is an opaque leaf (sound: an identity over opaque sub-terms holds for all their values)
+        # L1: split the γ's reachable through arithmetic from the root, their conditions being opaque booleans
+        for level in (0, 1):
+            try:
+                v = self._prove_opaque(kind, goal, facts, level)
+            except (Infeasible, NeedSplit):
+                v = None
+            if v is not None and v[0] == 'PROVED':
+                return v
+        return self._prove_full(kind, goal, facts)
+
+    def _prove_opaque(self, kind, goal, facts, level):
+        self._opaque = True
+        try:
+            if level == 0:
+                r = self._prove_flat(kind, goal, [])
+                return (r[0], 'opaque sub-terms; ' + r[1])
+            conds = []
+            _top_conds(goal, conds)
+            if not conds or len(conds) > 6:
+                return None
+            allok = True
+            n = 0
+            for vals in itertools.product([True, False], repeat=len(conds)):
+                g = goal
+                for c, v in zip(conds, vals):
+                    g = cofactor(g, c, v)
+                r = self._prove_flat(kind, g, [])
+                n += 1
+                if r[0] != 'PROVED':
+                    allok = False
+                    break
+            if allok:
+                return ('PROVED', '%d cofactor(s) over opaque conditions; identity holds in each' % n)
+            return None
+        finally:
+            self._opaque = False
+
+    def _prove_full(self, kind, goal, facts):
         conds = []
         conds_of(goal, conds)
         for f in facts:
@@ -277,6 +331,8 @@ class Prover:
         if op == 'sqrt': return sp.sqrt(self._conv(t[1], cx))
         if op == 'powi': return self._conv(t[1], cx) ** int(t[2])
         if op == 'bool': return sp.Integer(1 if t[1] else 0)
+        if getattr(self, '_opaque', False) and op in ('gamma', 'max', 'min', 'abs'):
+            return cx.leaf(t)
         if op == 'gamma':
             raise NeedSplit(t[1])
         if op in ('max', 'min'):
